@@ -380,6 +380,31 @@ func (p *provider) updateStatus(
 	usageIncrement int,
 	msg string,
 ) {
+	// the message of a condition is limited by the CRD. A longer one (like
+	// the error for an invalid lengthy expression) makes the API server refuse the update
+	const maxMessageLength = 1024
+
+	if len(msg) > maxMessageLength {
+		msg = msg[:maxMessageLength-3] + "..."
+	}
+
+	p.tryUpdateStatus(ctx, rs, status, reason, matchIncrement, usageIncrement, msg, 0)
+}
+
+func (p *provider) tryUpdateStatus(
+	ctx context.Context,
+	rs *v1alpha4.RuleSet,
+	status metav1.ConditionStatus,
+	reason v1alpha4.ConditionReason,
+	matchIncrement int,
+	usageIncrement int,
+	msg string,
+	attempt int,
+) {
+	// the status update is done by the event handlers of the informer. An update, which is refused again
+	// and again (e.g. as invalid), must not keep these from handling the events of other rule sets
+	const maxAttempts = 5
+
 	modRS := rs.DeepCopy()
 	repository := p.cl.RuleSetRepository(modRS.Namespace)
 
@@ -445,11 +470,17 @@ func (p *provider) updateStatus(
 		// to avoid cascading reads and writes
 		time.Sleep(time.Duration(2*rand.Intn(50)) * time.Millisecond) //nolint:mnd,gosec
 
+		if attempt+1 >= maxAttempts {
+			p.l.Warn().Err(err).Msgf("Failed updating RuleSet status. Giving up after %d attempts", maxAttempts)
+
+			return
+		}
+
 		rsKey := types.NamespacedName{Namespace: rs.Namespace, Name: rs.Name}
 		if rs, err = repository.Get(ctx, rsKey, metav1.GetOptions{}); err != nil {
 			p.l.Warn().Err(err).Msgf("Failed retrieving new RuleSet version for status update")
 		} else {
-			p.updateStatus(ctx, rs, status, reason, matchIncrement, usageIncrement, msg)
+			p.tryUpdateStatus(ctx, rs, status, reason, matchIncrement, usageIncrement, msg, attempt+1)
 		}
 	default:
 		p.l.Warn().Err(err).Msgf("Failed updating RuleSet status")
